@@ -266,6 +266,64 @@ def order_problems(A, f, frun):
     return problems
 
 
+DISPLAY_PARAMS = ('desc', 'total', 'smoothing')
+DISPLAY_CALLEES = ('tqdm', 'tqdm_notebook', 'progress_bar', 'trange')
+
+
+def check_display_only(A, R, rid, f):
+    """Non-interference by occurrence: each read of a display parameter is (a) the value of a keyword argument of a progress-bar call,
+    (b) part of the `<p> is None` test of an `if` that only gives display parameters their default, or (c) an entry of a dict that is only
+    unpacked into a progress-bar call.  `total` is a hint that may be wrong (an estimate for a generator): sizing, slicing or placing results
+    by it changes the returned list."""
+    names = [p_ for p_ in f.params if p_ in DISPLAY_PARAMS]
+    funcs = [f]
+    stack = list(f.nested.values())
+    while stack:
+        g = stack.pop()
+        funcs.append(g)
+        stack.extend(g.nested.values())
+    shadowed = {g.qualname: set(g.params) for g in funcs if g is not f}
+
+    def bar_call(c_):
+        return isinstance(c_, ast.Call) and src(c_.func).split('.')[-1] in DISPLAY_CALLEES
+
+    def option_dict_ok(var, g):
+        # `opts = dict(desc=desc, total=total)` / `{'total': total}`: every read of opts is `**opts` of a progress-bar call
+        uses = [x for h in funcs for x in A.typer.own_nodes(h) if isinstance(x, ast.Name) and x.id == var and isinstance(x.ctx, ast.Load)]
+        return bool(uses) and all(isinstance(getattr(u, '_parent', None), ast.keyword) and u._parent.arg is None and bar_call(getattr(u._parent, '_parent', None)) for u in uses)
+
+    n_reads = 0
+    for g in funcs:
+        for x in A.typer.own_nodes(g):
+            if not (isinstance(x, ast.Name) and x.id in names and isinstance(x.ctx, ast.Load)) or x.id in shadowed.get(g.qualname, ()):
+                continue
+            n_reads += 1
+            par = getattr(x, '_parent', None)
+            construct = f'{f.qualname.split(".")[-2] if "." in f.qualname else ""}.{f.name}: `{x.id}` in `{src(_stmt_of(x)).splitlines()[0][:50]}`'
+            ok = undecided = False
+            if isinstance(par, ast.keyword) and bar_call(getattr(par, '_parent', None)):
+                ok = True
+            elif isinstance(par, ast.Compare) and len(par.ops) == 1 and isinstance(par.ops[0], (ast.Is, ast.IsNot)) and isinstance(par.comparators[0], ast.Constant) and par.comparators[0].value is None:
+                st = _stmt_of(x)
+                ok = isinstance(st, ast.If) and not st.orelse and all(isinstance(b, ast.Assign) and all(isinstance(t_, ast.Name) and t_.id in names for t_ in b.targets) for b in st.body)
+                undecided = not ok
+            elif isinstance(par, (ast.keyword, ast.Dict)):
+                holder = getattr(par, '_parent', None) if isinstance(par, ast.keyword) else par
+                asg = getattr(holder, '_parent', None)
+                if (isinstance(holder, ast.Dict) or (isinstance(holder, ast.Call) and src(holder.func) == 'dict')) and isinstance(asg, ast.Assign) and len(asg.targets) == 1 and isinstance(asg.targets[0], ast.Name):
+                    ok = option_dict_ok(asg.targets[0].id, g)
+                    undecided = not ok
+            elif isinstance(par, ast.Assign) and par.value is x:
+                undecided = True   # a plain alias: not followed
+            if undecided:
+                R.undecided(rid, construct, 'use of a display argument not recognised', where=where(g, x))
+            else:
+                R.check(ok, rid, construct, key_of('display-only', f.qualname, x.id, src(_stmt_of(x)).splitlines()[0][:60]), 'reaches only the progress bar',
+                        f'the progress-display argument `{x.id}` is used outside the progress bar (`{src(_stmt_of(x)).splitlines()[0][:70]}`): with a caller-supplied value that differs from the real '
+                        'number of elements (an estimate for a generator) the returned list is no longer [f(x) for x in xs]', where=where(g, x))
+    return n_reads
+
+
 def _parents(n):
     p = getattr(n, '_parent', None)
     while p is not None and not isinstance(p, (ast.FunctionDef, ast.AsyncFunctionDef)):
@@ -296,16 +354,26 @@ def run(A, R: Report, thorough: bool):
     fc = A.func('chunked')
     size = fc.params[1]
     cfg = A.cfg(fc)
-    loops = [n for n in A.typer.own_nodes(fc) if isinstance(n, ast.For) and src(n.iter) == fc.params[0] and isinstance(n.target, ast.Name)]
+    def elem_of(n):
+        """name of the current element when the loop walks the iterable itself (directly, or numbered by enumerate)"""
+        if src(n.iter) == fc.params[0] and isinstance(n.target, ast.Name):
+            return n.target.id
+        if isinstance(n.iter, ast.Call) and src(n.iter.func) == 'enumerate' and n.iter.args and src(n.iter.args[0]) == fc.params[0] and isinstance(n.target, ast.Tuple) \
+                and len(n.target.elts) == 2 and all(isinstance(e_, ast.Name) for e_ in n.target.elts):
+            # the running index counts consumed elements, not the pending chunk: it is no chunk counter below
+            return n.target.elts[1].id
+        return None
+    loops = [n for n in A.typer.own_nodes(fc) if isinstance(n, ast.For) and elem_of(n) is not None]
     if len(loops) != 1:
         R.undecided('R17.3', 'chunked', 'chunking idiom not recognised', where=where(fc))
         return
     lp = loops[0]
+    elem = elem_of(lp)
     problems = []
     inside = {id(x) for x in ast.walk(lp)}
     appends = [n for n in ast.walk(lp) if isinstance(n, ast.Call) and isinstance(n.func, ast.Attribute) and n.func.attr == 'append' and isinstance(n.func.value, ast.Name)]
     lst = appends[0].func.value.id if appends else None
-    if len(appends) != 1 or [src(a_) for a_ in appends[0].args] != [lp.target.id] or not loop_unconditional(cfg, lp, appends[0]):
+    if len(appends) != 1 or [src(a_) for a_ in appends[0].args] != [elem] or not loop_unconditional(cfg, lp, appends[0]):
         problems.append('not exactly one append of the current element per iteration')
     incs = [n for n in ast.walk(lp) if isinstance(n, ast.AugAssign) and isinstance(n.op, ast.Add) and isinstance(n.value, ast.Constant) and n.value.value == 1 and isinstance(n.target, ast.Name)]
     cnt = incs[0].target.id if incs else None
@@ -383,6 +451,11 @@ def run(A, R: Report, thorough: bool):
         if not (ty.value is not None and src(ty.value) == lst):
             problems.append('the trailing yield does not yield the collected chunk')
     R.check(not problems, 'R17.3', 'chunked', key_of('chunked', sorted(problems)), 'chunking idiom well-formed', '; '.join(problems), where=where(fc))
+
+    # ---- R17.8 the progress-display arguments are display-only
+    R.rule('R17.8', 'the progress-display arguments (desc, total, smoothing) reach only the progress bar: the returned list cannot depend on them', floor=2)
+    for f in pms:
+        check_display_only(A, R, 'R17.8', f)
 
     # ---- R17.6 the helpers share the thread's event loop: none of them may take it away from the others
     R.rule('R17.6', 'while some helper obtains the loop with asyncio.get_event_loop(), no code closes or unsets the thread\'s current loop (asyncio.run, loop.close, set_event_loop(None))', floor=1)
